@@ -123,8 +123,11 @@ class require:  # pylint: disable=invalid-name
         if contract_checker is None:
             # Wrap the function with a contract checker
             contract_checker = icontract._checkers.decorate_with_checker(func=func)
-
-        result = contract_checker
+            result = contract_checker
+        else:
+            # The contract checker is already on the decorator stack of ``func``, possibly below other decorators
+            # which must not be dropped.
+            result = func
 
         assert self._contract is not None
         icontract._checkers.add_precondition_to_checker(
@@ -328,8 +331,11 @@ class ensure:  # pylint: disable=invalid-name
         if contract_checker is None:
             # Wrap the function with a contract checker
             contract_checker = icontract._checkers.decorate_with_checker(func=func)
-
-        result = contract_checker
+            result = contract_checker
+        else:
+            # The contract checker is already on the decorator stack of ``func``, possibly below other decorators
+            # which must not be dropped.
+            result = func
 
         assert self._contract is not None
         icontract._checkers.add_postcondition_to_checker(
